@@ -114,3 +114,67 @@ func genPrune(r *rng) string {
 	}
 	return fmt.Sprintf("PAIR prune 0 ## %s ## %s", base, v.encode())
 }
+
+// displace (C17): base = a chain; variant = the same chain with one plain injector marked Reorder
+// and listed at another position.
+func init() {
+	streams["displace"] = &stream{gen: genDisplace, run: runPair}
+	streams["reorder"] = &stream{gen: func(r *rng) string { return genReorderChain(r).encode() }, run: runChain}
+}
+
+// genReorderChain: ordinary chains with Reorder sprinkled on injectors (and sometimes wrappers)
+func genReorderChain(r *rng) *ccase {
+	c := genChain(r, chainOpts{})
+	for i, p := range c.provs {
+		if i == len(c.provs)-1 || p.shape == 1 {
+			continue
+		}
+		if r.chance(1, 4) && (p.shape == 2 || r.chance(1, 3)) {
+			p.annots |= aReorder
+		}
+	}
+	for _, p := range c.provs {
+		p.cluster = 0
+	}
+	return c
+}
+
+func genDisplace(r *rng) string {
+	for {
+		c := genChain(r, chainOpts{noSelect: true, noStatic: r.chance(2, 3)})
+		if len(c.provs) < 3 {
+			continue
+		}
+		for _, p := range c.provs {
+			p.cluster = 0
+			p.annots &^= aNonFinal
+			// behaviour must not depend on the global serial, which displacement shifts:
+			// nothing fails, every wrapper calls inner() exactly once
+			p.failmask = 0
+			p.calls = nil
+		}
+		// candidates: plain injectors (no TerminalError), not last
+		var cands []int
+		for i, p := range c.provs[:len(c.provs)-1] {
+			if p.shape == 2 && !containsInt(p.outs, tcOf(pTerminal)) && p.annots&(aCacheable|aMustCache|aMemoize|aSingleton) == 0 {
+				cands = append(cands, i)
+			}
+		}
+		if len(cands) == 0 {
+			continue
+		}
+		i := cands[r.intn(len(cands))]
+		base := c.encode()
+		v := parseChain(base)
+		moved := v.provs[i]
+		moved.annots |= aReorder
+		rest := append(append([]*cprovider{}, v.provs[:i]...), v.provs[i+1:]...)
+		// any position except the last (the final function stays last) and the original one
+		j := r.intn(len(rest))
+		if j == i {
+			j = (j + 1) % len(rest)
+		}
+		v.provs = append(append(append([]*cprovider{}, rest[:j]...), moved), rest[j:]...)
+		return fmt.Sprintf("PAIR displace %d ## %s ## %s", moved.pid, base, v.encode())
+	}
+}
